@@ -210,24 +210,36 @@ Fixpoint span (f : byte -> bool) (s : bytes) : bytes * bytes :=
   end.
 Definition is_digit (b : byte) : bool := (48 <=? bN b) && (bN b <=? 57).
 Definition is_tab (b : byte) : bool := Byte.eqb b x09.
-Definition strip_end (p s : bytes) : option bytes := option_map (@rev byte) (strip (rev p) (rev s)).
+Definition frev (s : bytes) : bytes := rev_append s [].     (* List.rev in linear time *)
+Definition strip_end (p s : bytes) : option bytes := option_map frev (strip (frev p) (frev s)).
 
 Definition ws_prefix : bytes := bs "templ_7745c5c3_Err = templruntime.WriteString(templ_7745c5c3_Buffer, ".
 Definition ws_open : bytes := [x2c; x20; x22].     (* comma, space, double quote *)
 Definition ws_close : bytes := [x22; x29].          (* double quote, closing parenthesis *)
 Definition err_prefix : bytes := bs "return" ++ [x09] ++ bs "templ.Error{Err: templ_7745c5c3_Err, FileName: ".
 Definition date_prefix : bytes := bs "// templ: generated: ".
-Definition col_rev : bytes := rev (bs ", Col: ").
-Definition line_rev : bytes := rev (bs ", Line: ").
+Definition col_rev : bytes := frev (bs ", Col: ").
+Definition line_rev : bytes := frev (bs ", Line: ").
 Definition pos_erased : bytes := bs ", Line: , Col: }".
 
-(* a line  TABS templ_7745c5c3_Err = templruntime.WriteString(templ_7745c5c3_Buffer, DIGITS, "LIT")
-   is split into (TABS, DIGITS, LIT) *)
+(* first occurrence of p in s: (what precedes it, what follows it) *)
+Fixpoint find_sub (p s : bytes) {struct s} : option (bytes * bytes) :=
+  match strip p s with
+  | Some r => Some ([], r)
+  | None => match s with
+            | [] => None
+            | c :: s' => match find_sub p s' with Some (a, b) => Some (c :: a, b) | None => None end
+            end
+  end.
+
+(* a line  PRE templ_7745c5c3_Err = templruntime.WriteString(templ_7745c5c3_Buffer, DIGITS, "LIT")
+   is split into (PRE, DIGITS, LIT).  PRE is the indentation, preceded on the first line of a case body by the
+   case clause (the generator writes no line break after  case X:  and  default: ); the call is looked for at the
+   FIRST occurrence of its text in the line *)
 Definition ws_parse (l : bytes) : option (bytes * bytes * bytes) :=
-  let '(tb, r) := span is_tab l in
-  match strip ws_prefix r with
+  match find_sub ws_prefix l with
   | None => None
-  | Some r1 =>
+  | Some (pre, r1) =>
       let '(ds, r2) := span is_digit r1 in
       match ds with
       | [] => None
@@ -236,12 +248,12 @@ Definition ws_parse (l : bytes) : option (bytes * bytes * bytes) :=
           | None => None
           | Some r3 => match strip_end ws_close r3 with
                        | None => None
-                       | Some lit => Some (tb, ds, lit)
+                       | Some lit => Some (pre, ds, lit)
                        end
           end
       end
   end.
-Definition ws_line (tb ds lit : bytes) : bytes := tb ++ ws_prefix ++ ds ++ ws_open ++ lit ++ ws_close.
+Definition ws_line (pre ds lit : bytes) : bytes := pre ++ ws_prefix ++ ds ++ ws_open ++ lit ++ ws_close.
 
 (* TABS return<TAB>templ.Error{... , Line: DIGITS, Col: DIGITS}  loses the two numbers (read from the end of the line:
    the file name in between is an arbitrary Go string) *)
@@ -250,7 +262,7 @@ Definition erase_pos (l : bytes) : bytes :=
   match strip err_prefix r with
   | None => l
   | Some _ =>
-      match strip [x7d] (rev l) with
+      match strip [x7d] (frev l) with
       | None => l
       | Some a =>
           let '(_, a1) := span is_digit a in
@@ -260,7 +272,7 @@ Definition erase_pos (l : bytes) : bytes :=
               let '(_, a3) := span is_digit a2 in
               match strip line_rev a3 with
               | None => l
-              | Some a4 => rev a4 ++ pos_erased
+              | Some a4 => frev a4 ++ pos_erased
               end
           end
       end
@@ -270,7 +282,7 @@ Definition is_date (l : bytes) : bool := match strip date_prefix l with Some _ =
 
 Definition skel_line (l : bytes) : bytes :=
   match ws_parse l with
-  | Some (tb, ds, _) => ws_line tb ds []
+  | Some (pre, ds, _) => ws_line pre ds []
   | None => erase_pos l
   end.
 
@@ -282,16 +294,17 @@ Definition gen_out_code (o : gen_opts) (literals exprs : list bytes) (code : byt
   {| g_opts := o; g_literals := literals; g_exprs := exprs; g_skel := skel_of_code code |}.
 
 (* ---------- the generated file as a program of lines ----------
-   Every line of the generated code is a statement: a WriteString line is OLit with the index written in it, any
-   other line is OCode (the date comment is no statement).  [exec] over this program with an arbitrary [code]
-   is an arbitrary semantics of the Go text in which a WriteString call does what [lk] says. *)
+   Every line of the generated code is a statement: a WriteString line is what precedes the call (indentation, a
+   case clause) as an opaque statement followed by OLit with the index written in the call; any other line is OCode
+   (the date comment is no statement).  [exec] over this program with an arbitrary [code] is an arbitrary semantics
+   of the Go text in which a WriteString call does what [lk] says. *)
 Definition num_of (ds : bytes) : nat := match undec ds with Some n => N.to_nat n | None => 0%nat end.
-Definition op_of_line (l : bytes) : op :=
+Definition ops_of_line (l : bytes) : list op :=
   match ws_parse l with
-  | Some (_, ds, lit) => OLit (num_of ds) lit
-  | None => OCode l
+  | Some (pre, ds, lit) => [OCode pre; OLit (num_of ds) lit]
+  | None => [OCode l]
   end.
-Definition ops_of_code (code : bytes) : list op := map op_of_line (code_lines code).
+Definition ops_of_code (code : bytes) : list op := flat_map ops_of_line (code_lines code).
 (* a well-formed generated file: it has a line, and its WriteString calls are numbered 1, 2, ... in order
    (generator model: C16_literal_indices; real generator: checked on every generated file) *)
 Definition wf_code (code : bytes) : bool :=
